@@ -958,6 +958,15 @@ func (e *endpoint) HandlePacket(r *stack.Route, id stack.TransportEndpointID, vv
 	}
 
 	// 去除UDP首部
+	if int(hdr.Length()) < header.UDPMinimumSize {
+		// Malformed: the length field does not even cover the header.
+		e.stack.Stats().UDP.MalformedPacketsReceived.Increment()
+		return
+	}
+	// Octets of the IP payload beyond the UDP length are not part of the
+	// datagram and must not reach the application.
+	vv.CapLength(int(hdr.Length()))
+
 	vv.TrimFront(header.UDPMinimumSize)
 
 	e.rcvMu.Lock()
